@@ -546,6 +546,39 @@ def plan(tier):
 MISPLACED = ['@namespace p "http://other";', '@namespace "http://d";', '@namespace p url(http://other);', '@import "z.css";', '@charset "utf-8";', '@namespace q "http://q";', '@import url(z.css) print;', '@CHARSET "x";', '@import;', '@namespace;']
 
 
+# at-rules that belong inside another rule, written at a statement boundary (also in the header of the sheet, where they do not
+# end the header): whatever becomes of them, every other rule stays
+ANYWHERE = ['@top-left{c:d}', '@TOP-LEFT {c:d}', '@bottom-center{}', '@top-left{(;)}']
+
+
+def _strip_margin(p):
+    if isinstance(p, tuple):
+        return tuple(_strip_margin(x) for x in p if not (isinstance(x, tuple) and x and x[0] == 'margin'))
+    return p
+
+
+def _misplaced_any(res, bi, pi, m):
+    text = inject(bi, pi, m)
+    guard.pristine()
+    res.evaluations += 1
+    res.nontrivial += 1
+    res.clauses['C04.misplaced'] += 1
+    case = {'kind': 'misplaced-any', 'base': bi, 'point': pi, 'rule': m, 'text': text}
+    try:
+        with guard.watchdog(10):
+            got, nlog = parse_nc(text)
+    except Exception as e:
+        res.violation('C04.misplaced', guard.crash_site(e) + '|margin-rule-outside-page', case, 'a DOM', repr(e)[:300])
+        return
+    log_dependence(res, 'C04.misplaced', case, 'misplaced')
+    exp = base_proj(bi)
+    got = _strip_margin(strip_unknown(got))
+    # (inside @page a margin box is at home: it is stripped on both sides)
+    if got != _strip_margin(exp):
+        d = P.diff_path(_strip_margin(exp), got)
+        res.violation('C04.misplaced', f'margin-rule-outside-page|{_what_is_lost(_strip_margin(exp), got)}', case, {'at': list(d[0]), 'undamaged': d[1]}, {'damaged': d[2]})
+
+
 def run_shard(shard, tier, seed):
     res = Result(seed)
     kind, arg = shard
@@ -567,6 +600,9 @@ def run_shard(shard, tier, seed):
         else:
             for m in MISPLACED:
                 _misplaced(res, bi, pi, m)
+            if points(bi)[pi] == S:
+                for m in ANYWHERE:
+                    _misplaced_any(res, bi, pi, m)
     elif kind == 'trunc':
         run_truncation(res, arg[0], arg[1])
     guard.pristine()
@@ -607,6 +643,8 @@ def replay(case, tier, seed):
         run_damage(res, case['base'], case['point'], case['construct'], tuple(case['tokens']))
     elif k == 'misplaced':
         _misplaced(res, case['base'], case['point'], case['rule'])
+    elif k == 'misplaced-any':
+        _misplaced_any(res, case['base'], case['point'], case['rule'])
     elif k == 'truncation':
         # re-run the whole spelling and keep only the violations of this cut
         r2 = Result(seed)
